@@ -10,7 +10,7 @@ in : `knn method=brute|vptree|covertree k=3 cb=plain|kernel metric=L1|Linf|matri
       [vs=..] [ids=<lists returned by the implementation>] [raw=<cover-tree candidate sets>] [brief=1]
       [tree=<preorder dump of the real cover tree> gs=<d/get_scale(d),..> ds=<s/dist_of_scale(s),..>]`
 out: `model=<obs;..> alt=<i,..> [impl=<obs;..> oracle=ok|bad@i:reason corr=ok|diff@i] [wrap=ok|diff@i|oob@i cq=ok|bad@i]
-      [wf=.. mq=.. mqorder=.. nodes=.. leafscale=..] [bt=ok|diff@r:..|err bh=ok|neg bf=ok|table|bracket fuel=.. bls=ok|diff]`
+      [wf=.. lf=.. qfuel=.. mq=.. mqorder=.. nodes=.. leafscale=..] [bt=ok|diff@r:..|err bh=ok|neg bf=ok|table|bracket fuel=.. bls=ok|diff]`
 
 `bt` : the tree the Lean model of `batch_create` (`CoverBuild.batchCreate`, run over `Rat` with the scale functions given
 by the `gs` / `ds` tables of the values the real code computes) builds, compared record by record (point, scale, number
@@ -203,8 +203,10 @@ def buildReport (sp : Space) (sh : Nat) (recs : List Rec) (leafScale : Nat) (gsS
       s!"bt={bt} bh={bh} bf={bf} fuel={fuel} bls={if ls == leafScale then "ok" else s!"diff:{ls}"}"
   | _, _ => "bt=unparsed"
 
-/-- `wf=..  mq=..  mqorder=..` : well-formedness certificate of the real tree, the model query run on it compared
-    with the real candidate sets (as sets; identical order is a fidelity diagnostic only) -/
+/-- `wf=..  lf=..  qfuel=..  mq=..  mqorder=..` : well-formedness certificate of the real tree (`wfTree`), its childless
+    nodes carry `leaf_scale` (`leavesAt`, hypothesis of `cover_query_fuel_suffices`), the fuel the query model runs with
+    (`queryFuel`, the bound of that theorem), the model query run on the tree compared with the real candidate sets (as
+    sets; identical order is a fidelity diagnostic only); `mq=err` = the model did not answer (impossible when `lf=1`) -/
 def treeReport (sp : Space) (sh : Nat) (k : Nat) (treeS : String) (raw : List (List Nat))
     (gsds : Option (String × String)) : String :=
   match allSome ((splitNonEmpty treeS ",").map (parseRec sh)) with
@@ -217,15 +219,18 @@ def treeReport (sp : Space) (sh : Nat) (k : Nat) (treeS : String) (raw : List (L
       let br := match gsds with
         | some (g, d) => " " ++ buildReport sp sh recs leafScale g d
         | none => ""
+      -- hypothesis of `cover_query_fuel_suffices`: every childless node carries the leaf scale; under it the query
+      -- model, run with the fuel `top.queryFuel` of that theorem, answers (`mq=err` is then impossible)
+      let lf := CNode.leavesAt leafScale top
       match batchQuery sp.dist id (k + 1) leafScale top with
-      | none => s!"wf={b2s wf} mq=fuel{br}"
+      | none => s!"wf={b2s wf} lf={b2s lf} mq=err qfuel={top.queryFuel}{br}"
       | some res =>
         let sameSets := res.length == raw.length && (res.zip raw).all fun (a, b) =>
           a.head? == b.head? && a.tail.mergeSort == b.tail.mergeSort
         let sameOrder := res == raw
         let firstDiff := ((res.zip raw).find? fun (a, b) => !(a.head? == b.head? && a.tail.mergeSort == b.tail.mergeSort)).map
           fun (a, _) => toString (a.headD 0)
-        s!"wf={b2s wf} mq={if sameSets then "ok" else "diff@q" ++ firstDiff.getD "?"} mqorder={if sameOrder then "same" else "diff"} nodes={recs.length} leafscale={leafScale}{br}"
+        s!"wf={b2s wf} lf={b2s lf} qfuel={top.queryFuel} mq={if sameSets then "ok" else "diff@q" ++ firstDiff.getD "?"} mqorder={if sameOrder then "same" else "diff"} nodes={recs.length} leafscale={leafScale}{br}"
     | _ => "wf=unparsed-tree"
 
 def answer (line : String) : String :=
